@@ -71,6 +71,13 @@ def run_fct(case, ctx):
     rng = numpy.random.RandomState(case["sub"] % (2 ** 31) + len(name))
     n = int(rng.randint(1, 40))
     y = domain(rng, kind, n)
+    tiny = name in ("log1p", "expm1") and case["sub"] % 3 == 0
+    if tiny:
+        # targets far below 1e-8: what the accurate NumPy functions behind these two names are for; every slack
+        # below is relative to this magnitude
+        y = rng.uniform(0.5, 2.0, n) * 10.0 ** (-rng.randint(9, 21, n).astype(float))
+        ctx.cls("tiny-targets")
+    mag = float(numpy.min(numpy.abs(y))) if tiny else 1.0
     if n > 2:
         y[rng.randint(n)] = numpy.nan
     shape = ["1d", "column"][case["sub"] % 2]
@@ -92,14 +99,14 @@ def run_fct(case, ctx):
     ctx.hit("fct.roundtrip")
     with numpy.errstate(all="ignore"):
         exp1 = f(y)
-    ok_f = numpy.allclose(y1, exp1, rtol=1e-9, atol=1e-12, equal_nan=True)
+    ok_f = numpy.allclose(y1, exp1, rtol=1e-9, atol=1e-12 * mag, equal_nan=True)
     ctx.check(ok_f, "C13/fct/forward-differs", "transform(%s) is not the function of that name" % name, cfg=cfg,
               got=y1.ravel()[:4], expected=exp1.ravel()[:4])
     nan_in = numpy.isnan(y)
     ctx.check(bool((numpy.isnan(y2) == nan_in).all()), "C13/fct/nan-not-preserved", "NaN pattern changed",
               cfg=cfg)
     # absolute error of exp(log(.)) style round trips grows like |y| * eps * condition; 1e-9 relative is ample
-    good = numpy.allclose(y2[~nan_in], y[~nan_in], rtol=1e-9, atol=1e-12)
+    good = numpy.allclose(y2[~nan_in], y[~nan_in], rtol=1e-9, atol=1e-12 * mag)
     if not good:
         i = int(numpy.argmax(numpy.abs(y2[~nan_in] - y[~nan_in])))
         ctx.violation("C13/fct/roundtrip/%s" % name, "reciprocal of %r does not undo it: %r -> %r -> %r" % (
@@ -114,7 +121,7 @@ def run_fct(case, ctx):
     tc = FunctionReciprocalTransformer(f, finv).fit()
     _, yc = tc.transform(X, y)
     _, yc2 = tc.get_fct_inv().transform(X, yc)
-    ctx.check(numpy.allclose(yc2[~nan_in], y[~nan_in], rtol=1e-9, atol=1e-12), "C13/fct/callable-roundtrip",
+    ctx.check(numpy.allclose(yc2[~nan_in], y[~nan_in], rtol=1e-9, atol=1e-12 * mag), "C13/fct/callable-roundtrip",
               "callable pair round trip failed", cfg=cfg)
     if nan_in.any():
         ctx.nontriv(cfg)
